@@ -7,13 +7,13 @@ EXTENDS Integers, Sequences, FiniteSets, TLC, Json
 CONSTANTS TraceFile
 Trace == ndJsonDeserialize(TraceFile)
 VARIABLES l, bad
-UP == INSTANCE Unpack WITH MaxEntries <- 0, Validate <- TRUE, x <- 0
+UP == INSTANCE Unpack WITH MaxEntries <- 0, Validate <- "full", x <- 0
 Ev == Trace[l]
 Arch == [k \in 1..Len(Ev.entries) |-> [name |-> Ev.entries[k].name, kind |-> Ev.entries[k].kind, target |-> Ev.entries[k].target]]
 TInit == TLCSet(1, 0) /\ TLCSet(2, <<>>) /\ l = 1 /\ bad = {}
 TUnpack == /\ l <= Len(Trace) /\ Ev.ev = "unpack" /\ l' = l + 1
            /\ bad' = bad \cup (IF Ev.outside = <<>> THEN {} ELSE {<<l, "unpacking created or modified something outside the destination directory">>})
-                          \cup (IF Ev.modelled => UP!Confined(UP!Unpack(UP!FS0, <<>>, Arch, {})) THEN {} ELSE {<<l, "the specification's own unpack model escapes for this archive">>})
+                          \cup (IF Ev.modelled => UP!Confined(UP!UnpackRoot(UP!FS0(Ev.dstabsent), [kind |-> Ev.root.kind, target |-> Ev.root.target], Arch)) THEN {} ELSE {<<l, "the specification's own unpack model escapes for this archive">>})
 TSpec == TInit /\ [][TUnpack]_<<l, bad>>
 NoBad == bad = {}
 Constr == TLCSet(1, IF TLCGet(1) < l THEN l ELSE TLCGet(1)) /\ (IF TLCGet(1) = l THEN TLCSet(2, <<0, l>>) ELSE TRUE)
